@@ -17,6 +17,7 @@ RULE = (
     "positions, gap filling); half of the cases continue on the same, already saved project with more API calls (new modules, edits of existing modules, links, patterns, fields) and are saved and compared again. Oracle: write_to(stream) == read(), loading from a str path / pathlib.Path == loading from a stream, bytes load without error, snapshot(loaded) == snapshot(original), module index/parent and pattern owner "
     "identities hold, and re-saving the loaded project is stable from the second generation on. distinct = recipe hash; non-trivial = >= 2 non-Output modules, or a "
     "non-default controller/option/payload, or a pattern with a non-empty cell, or a long name"
+    " Also (added while the seeded-change rounds of DESIGN section 9 ran): Recipes also draw: the SunVox version the file is written as, the order of a module's groups of assignments, mappings at and beyond the user-controller count, trailing empty positions, chains of pattern clones, MultiCtl.macro modules (with and without name), tricky / long / default-looking texts, format byte patterns inside data, samples of 64 KiB and 1 MiB; a family of projects with more than 255 modules; every fourth case has a failed save in its past; what write_to writes into streams, real files (w / a / r+), compressing files, and what copy.deepcopy / pickle copies and Project.clone() write or hold is compared too."
 )
 ASSUMPTIONS = [
     "equality is on vlib.snapshot's public-attribute snapshot with its documented normalisations (module names cut to 32 UTF-8 bytes, "
